@@ -634,14 +634,23 @@ pub fn nesting(text: &str) -> usize {
 }
 
 pub fn gen_texts(case: &mut Case, which: u8) -> Texts {
-    // which: 0 valid, 1 op token mutation, 2 schema token mutation, 3 char mutation, 4 soups
+    // which: 0 valid, 1 op token mutation, 2 schema token mutation, 3 char mutation, 4 soups, 5 injected rule violations
     // mutation decisions are drawn first so that they do not depend on how many choices the
     // document generators consume (an exhausted source yields zeros only)
-    let mut mch = Choices::new((0..if which == 4 { 200 } else { 48 }).map(|_| case.ch.raw()).collect());
+    let mut mch = Choices::new((0..if which >= 4 { 240 } else { 48 }).map(|_| case.ch.raw()).collect());
     let mut so = SchemaGenOpts::default();
     so.descriptions = 2;
     let gs = gen_schema(&mut case.ch, &so);
-    let (gd, _) = gen_doc(&mut case.ch, &gs.schema, &DocGenOpts::default());
+    let (mut gd, _) = gen_doc(&mut case.ch, &gs.schema, &DocGenOpts::default());
+    if which == 5 {
+        // semantically faulty but syntactically fine: the C03 fault operators (unknown fields, fragment
+        // cycles - also through inline fragments and in subscriptions -, wrong variable types, misplaced
+        // directives, ...), one to three of them
+        let n = mch.range(1, 3);
+        for _ in 0..n {
+            let _ = crate::props::c03::inject(&mut mch, &mut gd.doc, &gs.schema);
+        }
+    }
     let wild = |case: &mut Case| {
         let mut r = if case.ch.chance(2, 3) { RenderOpts::wild() } else { RenderOpts::canonical() };
         r.allow_cooked_block = true;
@@ -719,6 +728,10 @@ pub fn gen_texts(case: &mut Case, which: u8) -> Texts {
                 let i = mch.below(schema.len());
                 schema_t[i].1 = text;
             }
+            mutated = true;
+        }
+        5 => {
+            mode = "semantic-faults";
             mutated = true;
         }
         _ => {}
@@ -1072,7 +1085,7 @@ pub fn run(env: &Env) -> i32 {
     let mut rep = Report::new(
         env,
         "exploration",
-        "texts: (a) valid generated projects (schema split over files with extensions, hostile descriptions, operations with imports, wild trivia), (b) 1-3 token-level mutations of one file (delete/duplicate/swap/replace/insert/splice/truncate/rename, hostile string/comment/import/escape tokens, hostile block-string descriptions), (c) 1-4 character-level mutations, (d) token soup and Unicode soup (BOM, NUL, CR, astral, combining, surrogate-range and out-of-range escapes), (e) configuration text (mutated documented shapes, YAML fragments, Unicode). Each file <= 8 KiB, bracket nesting <= 64. Stages, each behind catch_unwind: both parsers, schema/operation extension resolution, import resolution, both checkers, then (only when every check returned no diagnostic) schema/resolver/operation type printers, JS printer, GraphQL printers, source-map JSON; otherwise print_positioned_error for every diagnostic; parse_config; the built CLI (check/generate x human/json/rdjson) on project directories with one mutated file or config. Oracle: no unwind, no abort/signal/status outside {0,1,2}, no `panicked at`, and termination within 30 s (re-confirmed twice in a fresh process). Non-trivial: both schema and operations got past the parsers, or a mutated input was rejected with a rendered diagnostic; distinct = texts.",
+        "texts: (a) valid generated projects (schema split over files with extensions, hostile descriptions, operations with imports, wild trivia), (b) 1-3 token-level mutations of one file (delete/duplicate/swap/replace/insert/splice/truncate/rename, hostile string/comment/import/escape tokens, hostile block-string descriptions), (c) 1-4 character-level mutations, (d) one to three injected validation-rule violations (the 22 C03 fault operators), (d') token soup and Unicode soup (BOM, NUL, CR, astral, combining, surrogate-range and out-of-range escapes), (e) configuration text (mutated documented shapes, YAML fragments, Unicode). Each file <= 8 KiB, bracket nesting <= 64. Stages, each behind catch_unwind: both parsers, schema/operation extension resolution, import resolution, both checkers, then (only when every check returned no diagnostic) schema/resolver/operation type printers, JS printer, GraphQL printers, source-map JSON; otherwise print_positioned_error for every diagnostic; parse_config; the built CLI (check/generate x human/json/rdjson) on project directories with one mutated file or config. Oracle: no unwind, no abort/signal/status outside {0,1,2}, no `panicked at`, and termination within 30 s (re-confirmed twice in a fresh process). Non-trivial: both schema and operations got past the parsers, or a mutated input was rejected with a rendered diagnostic; distinct = texts.",
     );
     rep.assume("bracket/selection nesting deeper than 64 is outside 'ordinary limits' and is not generated (discarded and counted if a mutation produces it)");
     rep.assume("non-UTF-8 bytes cannot reach the library API (&str); the CLI reads files with read_to_string, so only UTF-8 is generated");
@@ -1140,6 +1153,7 @@ pub fn run(env: &Env) -> i32 {
     rep.campaign("op-token-mutation", env.cases(8_000, 400_000), (60, 2500), move |case| pipeline_case(case, "op-token-mutation", 1, c));
     rep.campaign("schema-token-mutation", env.cases(8_000, 400_000), (60, 2500), move |case| pipeline_case(case, "schema-token-mutation", 2, c));
     rep.campaign("char-mutation", env.cases(6_000, 300_000), (60, 2500), move |case| pipeline_case(case, "char-mutation", 3, c));
+    rep.campaign("semantic-faults", env.cases(8_000, 400_000), (60, 2500), move |case| pipeline_case(case, "semantic-faults", 5, c));
     rep.campaign("soup-in-project", env.cases(3_000, 150_000), (60, 2500), move |case| pipeline_case(case, "soup-in-project", 4, c));
     rep.campaign("parsers", env.cases(30_000, 1_500_000), (0, 900), parser_only_case);
     rep.campaign("config-text", env.cases(20_000, 500_000), (0, 200), config_case);
